@@ -131,6 +131,28 @@ theorem roundtrip_default (P : Params) (q : QObj) (hq : WFQ q) (hD : DefaultDigi
     | none => rfl
     | some x => rw [hdg] at h1; exact h1
 
+/-! #### set_pickle_digits: the second entry of the pair is the derivatives' -/
+
+/-- after `set_pickle_digits((d0, d1))` the object is pickled with `d0` and EVERY derivative it carries with
+    `d1`, whichever way the derivative is pickled (whole, or gathered by the parent's antimask) -/
+theorem setDigits_derivDigits (p : Digits × Digits) (q : QObj) :
+    (checkDigits (setDigits p q).self.digits).1 = p.1 ∧
+    ∀ kd ∈ (setDigits p q).derivs, derivDigits (setDigits p q).self kd.2 = p.2 := by
+  refine ⟨rfl, ?_⟩
+  intro kd hkd
+  simp only [setDigits, List.mem_map] at hkd
+  obtain ⟨kd0, _, rfl⟩ := hkd
+  unfold derivDigits
+  cases (setDigits p q).self.antimask <;> rfl
+
+/-- so a pair whose entries are both exact settings makes the round trip exact, and with
+    `('single', 'double')`-like pairs the derivatives are lossless whatever happens to the object's values
+    (`FloatExact P .double` always holds) -/
+theorem setDigits_exact (P : Params) (p : Digits × Digits) (q : QObj)
+    (h0 : FloatExact P p.1) (h1 : FloatExact P p.2) : Exact P (setDigits p q) := by
+  obtain ⟨hs, hd⟩ := setDigits_derivDigits p q
+  exact ⟨fun _ => by rw [hs]; exact h0, fun kd hkd => by rw [hd kd hkd]; exact h1⟩
+
 /-! #### what `expect` says, in the property's words -/
 
 theorem expect_fields (q : Obj) :
@@ -348,5 +370,11 @@ theorem deriv_mask_counterexample :
         (fun r => r.derivs.map fun kd => kd.2.maskBits)
       = some [[true, false, false, false]] ∧
     exDeriv.maskBits = [true, true, false, false] := by decide
+
+/-- the seeded change C11y-b (derivatives receive the pair unchanged) breaks exactly this: a derivative then
+    reads the OBJECT's entry -/
+theorem setDigits_pair_counterexample :
+    derivDigits { exObj with digits := some (.single, .double) } { exObj with digits := some (.single, .double) }
+      = .single := by decide
 
 end PMV.Pickle
